@@ -101,7 +101,7 @@ template <class T, size_t... D> struct Uni : UniverseBase {
         dataseed = p.hdr[H_DATA]; sideA = p.hdr[H_SIDE_A] % 3; failalloc = p.hdr[H_FAILALLOC] & 1;
         uint32_t pat = p.hdr[H_POISON];
         for (int s = 0; s < 4; ++s) g_arena.reset(s, pat + (uint32_t)s);
-        g_scrub_byte = (uint8_t)(0x31 + 7 * pat);
+        g_scrub_byte = (uint8_t)(0x31 + 7 * pat); g_stack_skew = (p.hdr[H_DATA] & 3) << 4;
         uint8_t *pa = g_arena.place(0, sizeof(Ten), alignof(Ten), sideA, 0, true);
         uint8_t *pb = g_arena.place(1, sizeof(Ten), alignof(Ten), p.hdr[H_SIDE_B] % 3, 0, false);
         uint8_t *pc = g_arena.place(2, sizeof(Ten), alignof(Ten), MIDDLE, 0, false);
